@@ -218,6 +218,7 @@ fn run<X: El, N: ArrayLength>(sc: &str, f: usize, b: usize, skip: usize) {
         "fold.ref" => { let a = arr::<X, N>(); let _ = (&a).fold(0usize, |acc, x| { tick(); acc + x.idv() }); drop(a); }
         "clone" => { let a = arr::<X, N>(); let r = catch_unwind(AssertUnwindSafe(|| a.clone())); drop(a); match r { Ok(c) => drop(c), Err(e) => std::panic::resume_unwind(e) } }
         "try_from_iter" => { for cnt in [n, n + 1, n.saturating_sub(1)] { let r = GenericArray::<X, N>::try_from_iter(Src::<X> { left: cnt, next_id: 0, _x: std::marker::PhantomData }); drop(r); } }
+        "iter.clone_from" => { let mut it = position::<X, N>(f, b); let src = GenericArray::<X, N>::generate(|i| X::new(i + 16)).into_iter(); let r = catch_unwind(AssertUnwindSafe(|| it.clone_from(&src))); drop(it); drop(src); if let Err(e) = r { std::panic::resume_unwind(e) } }
         "clone_from" => { let mut a = arr::<X, N>(); let b2: GenericArray<X, N> = GenericArray::generate(|i| X::new(i + 16)); let r = catch_unwind(AssertUnwindSafe(|| a.clone_from(&b2))); drop(a); drop(b2); if let Err(e) = r { std::panic::resume_unwind(e) } }
         "try_boxed_from_iter" => { for cnt in [n, n + 1, n.saturating_sub(1)] { let r = GenericArray::<X, N>::try_boxed_from_iter(Src::<X> { left: cnt, next_id: 0, _x: std::marker::PhantomData }); drop(r); } }
         "remove" => { if n > 0 { let a = arr::<X, N>(); let r = catch_unwind(AssertUnwindSafe(|| dispatch_remove::<X, N>(a, n + skip))); if let Err(e) = r { std::panic::resume_unwind(e) } } }
@@ -815,12 +816,14 @@ fn main() {
     for v in variants {
         let cfg = Cfg { scenario: v, want };
         r = sweep::<E, U0>(&cfg).or_else(|| sweep::<E, U1>(&cfg)).or_else(|| sweep::<E, U2>(&cfg)).or_else(|| sweep::<E, U3>(&cfg)).or_else(|| sweep::<E, U4>(&cfg))
-            .or_else(|| sweep::<Zt, U1>(&cfg)).or_else(|| sweep::<Zt, U2>(&cfg)).or_else(|| sweep::<Zt, U3>(&cfg)).or_else(|| sweep::<Zt, U4>(&cfg));
+            .or_else(|| sweep::<Zt, U1>(&cfg)).or_else(|| sweep::<Zt, U2>(&cfg)).or_else(|| sweep::<Zt, U3>(&cfg)).or_else(|| sweep::<Zt, U4>(&cfg))
+            // a 128-byte array (size thresholds of "large array" fast paths); the iterator sweeps stay small (positions x skips x panic points)
+            .or_else(|| if cfg.scenario.starts_with("iter.") { None } else { sweep::<E, U16>(&cfg) });
         if r.is_some() { break; }
     }
     let cfg = Cfg { scenario: args[1].clone(), want };
     match r {
         Some(msg) => { println!("REPRODUCED {msg}"); std::process::exit(1) }
-        None => { println!("NOT-REPRODUCED scenario={} kind={:?} over N<=4, every position, skip count and panic point", cfg.scenario, cfg.want); }
+        None => { println!("NOT-REPRODUCED scenario={} kind={:?} over N<=4 (and N = 16 for the non-iterator operations), every position, skip count and panic point", cfg.scenario, cfg.want); }
     }
 }
